@@ -42,9 +42,18 @@ Proof.
   f_equal; [now apply H | now apply IH].
 Qed.
 
+Lemma tuple_cmp_eq ws : forall xs ys, wt_tuple ws xs -> wt_tuple ws ys -> tuple_cmp xs ys = Eq -> xs = ys.
+Proof.
+  induction ws as [|w ws IH]; intros xs ys Wx Wy E.
+  - destruct xs, ys; try contradiction. reflexivity.
+  - destruct xs as [|[|x| | |] xs], ys as [|[|y| | |] ys]; cbn [wt_tuple] in Wx, Wy; try contradiction.
+    cbn [tuple_cmp vint] in E. destruct (x ?= y)%Z eqn:Ec; try discriminate.
+    apply Z.compare_eq_iff in Ec. subst y. f_equal. apply IH; tauto.
+Qed.
+
 Theorem cmp_asc_eq : forall t, wf_type t -> forall nf a b, wt t a -> wt t b -> cmp_asc t nf a b = Eq -> a = b.
 Proof.
-  induction t as [w|w| |w|n| |fs IH|c IH|c n IH|c IH] using ftype_ind'; intros Wt nf a b Wa Wb E.
+  induction t as [w|w| |w|n| |fs IH|c IH|c n IH|c IH|ws] using ftype_ind'; intros Wt nf a b Wa Wb E.
   - destruct a, b; cbn [wt] in Wa, Wb; try contradiction; cbn [cmp_asc] in E; try (destruct nf; discriminate); [reflexivity|].
     apply Z.compare_eq_iff in E. now subst.
   - destruct a, b; cbn [wt] in Wa, Wb; try contradiction; cbn [cmp_asc] in E; try (destruct nf; discriminate); [reflexivity|].
@@ -78,6 +87,9 @@ Proof.
     rewrite cmp_asc_fsl in E. rewrite wt_fsl, wt_all_Forall in Wa, Wb. f_equal.
     apply (list_cmp_eq (wt c) (cmp_asc c nf)); try tauto. intros x y. now apply IH.
   - cbn [wf_type wt cmp_asc] in *. now apply (IH Wt nf).
+  - destruct a as [| | |xs|], b as [| | |ys|]; try (cbn [wt] in Wa, Wb; contradiction);
+      try (cbn [cmp_asc] in E; destruct nf; discriminate); [reflexivity|].
+    rewrite cmp_asc_iv in E. rewrite wt_iv in Wa, Wb. f_equal. now apply (tuple_cmp_eq ws).
 Qed.
 
 Lemma cmp_field_eq t o a b : wf_type t -> wt t a -> wt t b -> cmp_field t o a b = Eq -> a = b.
